@@ -42,6 +42,11 @@ def dihedral_angle_between(a1, a2, a3, a4):
     r1 = a1 - a2
     r2 = a3 - a2
     r3 = a3 - a4
+    # in two dimensions the planes are the drawing plane and the
+    # normals only have a z-component; numpy no longer computes the
+    # cross product of two dimensional vectors
+    if len(r1) == 2:
+        r1, r2, r3 = (np.append(vect, 0.0) for vect in (r1, r2, r3))
     cross1 = np.cross(r1, r2)
     cross2 = np.cross(r2, r3)
     n1 = u_vect(cross1)
